@@ -198,7 +198,7 @@ func init() {
 			return false
 		}
 		if !types.Comparable(x.t) || hasPointers(x.t) {
-			m.unsupported("reflect.DeepEqual on %s (only pointer-free comparable types are modelled)", x.t)
+			return m.val(m.deepEqTerm(x.t, x.v, y.v, 0), types.Bool)
 		}
 		return m.val(m.eqTerm(x.t, x.v, y.v), types.Bool)
 	})
@@ -764,6 +764,88 @@ func (m *machine) mix(v uint64) {
 }
 
 var _ = unsafe.Pointer(nil)
+
+// deepEqTerm: reflect.DeepEqual(x, y) at static type t as a Bool term
+// (pointers: identical or pointees deeply equal; slices: both nil or both
+// non-nil with equal lengths and deeply equal elements; structs and arrays
+// field-/element-wise; interfaces: same dynamic type and deeply equal values;
+// funcs: both nil). Maps and cyclic values (depth > 12) are not modelled.
+func (m *machine) deepEqTerm(t types.Type, x, y value, depth int) *smt.Term {
+	b := m.b
+	if depth > 12 {
+		m.unsupported("reflect.DeepEqual: value nested deeper than 12 levels (cyclic?) at %s", t)
+	}
+	switch u := t.Underlying().(type) {
+	case *types.Pointer:
+		xp, yp := x.(*value), y.(*value)
+		if xp == nil || yp == nil {
+			return b.Bool(xp == nil && yp == nil)
+		}
+		if xp == yp {
+			return b.True
+		}
+		return m.deepEqTerm(u.Elem(), *xp, *yp, depth+1)
+	case *types.Slice:
+		xs, _ := x.([]value)
+		ys, _ := y.([]value)
+		if (xs == nil) != (ys == nil) || len(xs) != len(ys) {
+			return b.False
+		}
+		r := b.True
+		for i := range xs {
+			r = b.And(r, m.deepEqTerm(u.Elem(), xs[i], ys[i], depth+1))
+			if r == b.False {
+				return r
+			}
+		}
+		return r
+	case *types.Struct:
+		xs, ys := x.(structure), y.(structure)
+		r := b.True
+		for i := 0; i < u.NumFields(); i++ {
+			r = b.And(r, m.deepEqTerm(u.Field(i).Type(), xs[i], ys[i], depth+1))
+			if r == b.False {
+				return r
+			}
+		}
+		return r
+	case *types.Array:
+		xa, ya := x.(array), y.(array)
+		r := b.True
+		for i := range xa {
+			r = b.And(r, m.deepEqTerm(u.Elem(), xa[i], ya[i], depth+1))
+			if r == b.False {
+				return r
+			}
+		}
+		return r
+	case *types.Interface:
+		xi, yi := x.(iface), y.(iface)
+		if xi.t == nil || yi.t == nil {
+			return b.Bool(xi.t == nil && yi.t == nil)
+		}
+		if !types.Identical(xi.t, yi.t) {
+			return b.False
+		}
+		return m.deepEqTerm(xi.t, xi.v, yi.v, depth+1)
+	case *types.Signature:
+		isNil := func(v value) bool {
+			switch f := v.(type) {
+			case *ssaFunction:
+				return f == nil
+			case nil:
+				return true
+			}
+			return false
+		}
+		return b.Bool(isNil(x) && isNil(y))
+	case *types.Map:
+		m.unsupported("reflect.DeepEqual on map type %s", t)
+	case *types.Chan:
+		return b.Bool(equals(t, x, y))
+	}
+	return m.eqTerm(t, x, y)
+}
 
 // hasPointers: DeepEqual differs from == for pointers, interfaces, etc.
 func hasPointers(t types.Type) bool {
